@@ -1048,3 +1048,113 @@ func init() {
 		strictFitEverywhereRule(c, r, "C16.10", func(f *ssa.Function) bool { return true }, 100)
 	})
 }
+
+// ---- a search result is tested before it is used as a position (C16.11) ----
+//
+// idx := -1; for i, m := range ms { if match { idx = i; break } }; if idx == -1 { return notFound }; use ms[:idx]. The variable
+// that starts at -1 is a position only after the -1 was excluded. Every use of such a variable as an index or slice bound is
+// proven >= 0 from the dominating tests (== -1, != -1, < 0, >= 0 all do; < -1 does not).
+func sentinelIndexRule(c *Ctx, r *Result, rule string, floor int) {
+	n := 0
+	for _, fn := range c.LibFuncs() {
+		if fn.Blocks == nil {
+			continue
+		}
+		var fb *FB
+		k := 0
+		instrs(fn, func(in ssa.Instruction) {
+			phi, ok := in.(*ssa.Phi)
+			if !ok || !isIntType(phi.Type()) {
+				return
+			}
+			hasMinus1 := false
+			for _, e := range phi.Edges {
+				if v, isK := constInt(e); isK && v == -1 {
+					hasMinus1 = true
+				}
+			}
+			if !hasMinus1 {
+				return
+			}
+			// uses as a position
+			var uses []ssa.Instruction
+			var walk func(v ssa.Value, d int)
+			seen := map[ssa.Value]bool{}
+			walk = func(v ssa.Value, d int) {
+				if seen[v] || d > 4 {
+					return
+				}
+				seen[v] = true
+				for _, ref := range *v.Referrers() {
+					switch x := ref.(type) {
+					case *ssa.IndexAddr:
+						if x.Index == v {
+							uses = append(uses, x)
+						}
+					case *ssa.Index:
+						if x.Index == v {
+							uses = append(uses, x)
+						}
+					case *ssa.Slice:
+						if x.Low == v || x.High == v {
+							uses = append(uses, x)
+						}
+					case *ssa.Convert:
+						walk(x, d+1)
+					case *ssa.Phi:
+						// another merge: its own uses are judged when that phi is visited
+					}
+				}
+			}
+			walk(phi, 0)
+			if len(uses) == 0 {
+				return
+			}
+			if fb == nil {
+				fb = c.FB(fn)
+			}
+			for _, u := range uses {
+				n++
+				k++
+				ok := fb.ProveGE0At(fb.lin(phi), u)
+				if !ok {
+					// excluded by an equality test: the use lies behind the edge phi != -1 and the variable never is below -1
+					if lo, _ := fb.rng(phi); lo >= -1 {
+						for _, b := range fn.Blocks {
+							ifi, isIf := b.Instrs[len(b.Instrs)-1].(*ssa.If)
+							if !isIf {
+								continue
+							}
+							cmp, isC := ifi.Cond.(*ssa.BinOp)
+							if !isC || stripConv(cmp.X) != ssa.Value(phi) {
+								continue
+							}
+							if kk, isK := constInt(cmp.Y); !isK || kk != -1 {
+								continue
+							}
+							edge := -1
+							switch cmp.Op {
+							case token.EQL:
+								edge = 1
+							case token.NEQ:
+								edge = 0
+							}
+							if edge >= 0 && edgeDominates(b, b.Succs[edge], u.Block()) {
+								ok = true
+							}
+						}
+					}
+				}
+				r.Check(ok, rule, fmt.Sprintf("%s#search-result-used-as-position-%d", c.Name(fn), k), c.InstrPos(u), "the variable starts at -1 (nothing found); where it is used as an index or slice bound the dominating tests exclude -1")
+			}
+		})
+	}
+	if n < floor {
+		r.Shortfall(c, rule, fmt.Sprintf("%s: only %d uses of -1-initialised search results as positions found (expected >= %d)", rule, n, floor))
+	}
+}
+
+func init() {
+	registry["C16"].Meta.Rules["C16.11"] = "a search result is tested before it is used as a position: a variable that starts at -1 and is set by a search is used as an index or slice bound only where the dominating tests exclude -1 (== -1, < 0 with an exit, >= 0; with `< -1` the not-found case reaches ms[:idx] and the call panics instead of reporting that the attribute does not exist)"
+	registry["C16"].Rules = append(registry["C16"].Rules, func(c *Ctx, r *Result) { sentinelIndexRule(c, r, "C16.11", 2) })
+}
